@@ -47,6 +47,8 @@ neighbor 127.0.0.2 {
 }
 """
 
+CONF2 = CONF.replace('route 10.1.0.0/24 next-hop 1.1.1.1;', 'route 10.2.0.0/24 next-hop 1.1.1.1;')
+
 HOLD = 180
 OPENWAIT = 60
 
@@ -119,6 +121,17 @@ class FakeIO:
         w, self.waiter = self.waiter, None
         if w is not None and not w.done():
             w.set_result(None)
+
+    def feed_part(self, data, a, b, name, arg=None):
+        """octets [a, b) of one message; the event is logged when the reader has taken the last octet of the
+        message (of its header for a header error), however many reads that takes"""
+        if a == 0:
+            n = 19 if str(arg).startswith('Header') else len(data)
+            self.labels.append([n, name, arg])
+            if len(data) > n:
+                self.labels.append([len(data) - n, None, None])
+        self.rx += data[a:b]
+        self.wake()
 
     def feed(self, data, name, arg=None):
         self.rx += data
@@ -287,9 +300,14 @@ class Rig:
         self.connect_mode = 'wait'
         self.connecting = None
         self.end = None
+        self.reloads = 0
+        self.race = None  # (kind) octets to deliver while the main loop sits in the last pause of an iteration
         getenv().bgp.openwait = OPENWAIT
         getenv().bgp.passive = False
         getenv().tcp.attempts = 0
+        import logging
+
+        logging.getLogger('asyncio').setLevel(logging.CRITICAL)  # 'Task exception was never retrieved' of a dropped read
         self.loop = VLoop()
         asyncio.set_event_loop(self.loop)
         self._patch()
@@ -366,6 +384,21 @@ class Rig:
                 raise
 
         patch(peermod.Peer, '_read_open', _read_open)
+
+        real_pending = peermod.Peer._has_pending_work
+
+        def _has_pending_work(peer, new_routes, message):
+            res = real_pending(peer, new_routes, message)
+            if rig.race is not None and not res:
+                # the iteration ends with `await asyncio.sleep(0.001)`: the scripted octets arrive in the middle
+                # of that pause, i.e. after the 100 ms read wait returned and before the loop looks at _teardown
+                kind, rig.race = rig.race, None
+                io = rig.cur_io()
+                if io is not None and not io.closed:
+                    rig.loop.call_later(0.0005, io.feed, wire(kind), 'Recv', kind)
+            return res
+
+        patch(peermod.Peer, '_has_pending_work', _has_pending_work)
 
         real_read_ka = peermod.Peer._read_ka
 
@@ -674,6 +707,29 @@ def run_script(steps, conf=CONF, gap=0.5, trace_exc=False):
                 else:
                     io.err = True
                     io.wake()
+            elif what == 'recv_part':
+                # arg = [kind, a, b]: octets [a, b) of the message (b = -1: to the end)
+                io = rig.cur_io()
+                kind, a, b = arg
+                data = wire(kind)
+                if io is None or io.closed:
+                    skipped.append(i)
+                else:
+                    io.feed_part(data, a, len(data) if b < 0 else b, 'Recv', kind)
+            elif what == 'reload':
+                # SIGUSR1 with the same neighbor and other routes: the real Reactor.reload(), Peer.reconfigure()
+                rig.reloads += 1
+                rig.configuration._configurations[:] = [CONF2 if rig.reloads % 2 else CONF]
+                rig.ev('Reconfigure', None)
+                if not rig.reactor.reload():
+                    raise RuntimeError(f'scripted reload refused: {rig.configuration.error}')
+                for n in rig.configuration.neighbors.values():
+                    n.api['neighbor-changes'] = True
+            elif what == 'teardown_race':
+                # arg = [code, kind]: API teardown, and `kind` arrives while the loop is in its last 1 ms pause
+                rig.ev('Teardown', arg[0])
+                rig.race = arg[1]
+                rig.reactor.teardown_peer(rig.key, arg[0])
             elif what == 'silence':
                 await asyncio.sleep(arg)
             elif what == 'teardown':
@@ -695,11 +751,11 @@ def run_script(steps, conf=CONF, gap=0.5, trace_exc=False):
                 from exabgp.bgp.message.refresh import RouteRefresh
                 from exabgp.protocol.family import AFI, SAFI
 
-                if rig.neighbor.refresh:
+                if rig.peer.neighbor.refresh:
                     skipped.append(i)  # the model keeps ONE queued ROUTE-REFRESH (a boolean)
                 else:
                     rig.ev('ApiRefresh', None)
-                    rig.neighbor.refresh.append(RouteRefresh.make_route_refresh(AFI.ipv4, SAFI.unicast))
+                    rig.peer.neighbor.refresh.append(RouteRefresh.make_route_refresh(AFI.ipv4, SAFI.unicast))
             elif what == 'upfail':
                 rig.ev('ProcessBroken', None)
                 rig.proc.fail_up = True
